@@ -171,11 +171,7 @@ theorem caf_session_reopen (c : Cfg) (hwf : c.wf) (stale : Int) (ops : List Op) 
   rw [(stale_frames_ignored_caf c hwf stale ops hv).1]
   exact parse_image c hwf _ _ _ (by rw [sessPeaks_eq]; exact i.pklen) (by simpa using i.dlen) hsz
 
-/-- KF-CAF-DATA-MINUS-ONE as a proved witness (foreign files only): the closed 16-bit file of 3 frames with its 'data' size
-    replaced by −1 ("to the end of the file") is refused — the `chunk_size < 0` test ends the chunk walk before the data chunk -/
-theorem caf_data_size_minus_one_refused :
-    let img := image { codec := 0x02, endian := 0, ch := 1, sr := 8000 } 3 [] [0, 1, 0, 2, 0, 3]
-    parse (img.take 4084 ++ List.replicate 8 255 ++ img.drop 4092) = .err ∧
-    parse img = .ok { fmtWord := 0x180002, ch := 1, sr := 8000, frames := 3, dataoffset := 4096, datalength := 6 } := by decide +kernel
+/-! KF-CAF-DATA-MINUS-ONE (a 'data' chunk of size −1 was refused) is repaired: the theorems about the new rule and the rule before the
+    repair (`caf_data_to_end_walk`, `caf_data_to_end_reopens`, `caf_data_size_minus_one_old_rule`) are in SfProps/C04CafDataEnd.lean. -/
 
 end Sf.C04Caf
